@@ -67,13 +67,7 @@ func cloneValue(t types.Type, v value) value {
 		if m == nil {
 			return (*hashmap)(nil)
 		}
-		r := makeMap(tt.Key(), 0).(*hashmap)
-		for _, e := range m.ents {
-			if !e.deleted {
-				r.insert(cloneValue(tt.Key(), e.key), cloneValue(tt.Elem(), e.value))
-			}
-		}
-		return r
+		return m.cloneWith(func(k value) value { return cloneValue(tt.Key(), k) }, func(v value) value { return cloneValue(tt.Elem(), v) })
 	case *types.Pointer:
 		p := v.(*value)
 		if p == nil {
